@@ -284,7 +284,8 @@ def check_input(chk, rx, spec, bursts_per_pos, stride, budget=None):
 _D20_SEEN = {}
 # `example : toHex d20Orig.enc = …` in lean/DtnVerif/Props/C08.lean (witness of C08_burst_counterexample)
 D20_LEAN_HEX = ('9f89071a000640000282016a2f2f6e6f64652f7376638201662f2f7372632f8201662f2f7372632f821903e8051a000493e0'
-                '44b1443e2286010100014568656c6c6f424bf3ff')
+                '44b1443e228618c002000140429e9786010100014568656c6c6f424bf3ff')
+D20_LEAN_POS = 61      # d20Corrupted = d20Orig.enc.set 61 0x00
 
 
 def d20_class(orig, bad, detail):
@@ -304,11 +305,13 @@ def d20_class(orig, bad, detail):
 
 
 def d20_witness():
-    ''' DESIGN §8 D20: CRC-32C primary block, report-to dtn://src/, final '/' -> '?' (one bit) '''
+    ''' witness of C08_burst_counterexample (Props/C08.lean d20Orig): extension block 192 with empty
+    BTSD; its `40` with bit 6 flipped is `00`, which BstrField.m2i turns back into b'' '''
     spec = {'primary': {'version': 7, 'flags': 0x40000 | 0x20000 | 0x4000, 'crc_type': 2,
                         'dest': ('dtn', '//node/svc'), 'src': ('dtn', '//src/'), 'rpt': ('dtn', '//src/'),
                         'time': 1000, 'seq': 5, 'lifetime': 300000, 'frag_off': 0, 'total_len': 0, 'crc': None},
-            'blocks': [{'type': 1, 'num': 1, 'flags': 0, 'crc_type': 1, 'btsd': b'hello', 'crc': None,
+            'blocks': [{'type': 192, 'num': 2, 'flags': 0, 'crc_type': 1, 'btsd': b'', 'crc': None, 'extra': None},
+                       {'type': 1, 'num': 1, 'flags': 0, 'crc_type': 1, 'btsd': b'hello', 'crc': None,
                         'extra': None}], 'crc_mode': 'update'}
     return spec
 
@@ -321,19 +324,18 @@ def check_d20(chk, rx):
     if data.hex() != D20_LEAN_HEX:
         chk.corr_break('D20: real encoding of the witness differs from the octets pinned in Props/C08.lean (d20Orig)',
                        {'real_hex': data.hex(), 'lean_hex': D20_LEAN_HEX})
-    # the report-to EID is the third EID: locate its final '/'
-    blocks = G.split_blocks(data)
-    s, e = blocks[0]['items'][5]
-    pos = e - 1
-    assert data[pos] == 0x2f
-    bad = flip_bits(data, [8 * pos + 4])
-    assert bad[pos] == 0x3f
+    pos = D20_LEAN_POS
+    assert data[pos] == 0x40
+    bad = flip_bits(data, [8 * pos + 6])
+    assert bad[pos] == 0x00
+    own = {'dtn': b'//node/'.hex()}
     r = rx.feed(bad)
     verdict, detail = G.octet_crc_verdict(bad)
-    g = chk.driver([{'op': 'bp.gate', 'hex': bad.hex(), 'own': {'dtn': b'//node/'.hex()}}])[0]
-    replay = {'stream': 'D20', 'original_hex': data.hex(), 'corrupted_hex': bad.hex(), 'bit': 8 * pos + 4,
+    g = chk.driver([{'op': 'bp.gate', 'hex': bad.hex(), 'own': own}])[0]
+    replay = {'stream': 'D20', 'original_hex': data.hex(), 'corrupted_hex': bad.hex(), 'bit': 8 * pos + 6,
               'octet_verdict': detail, 'real_check_all_crc': r['crc_fail'], 'accepted': r['accepted'],
-              'delta': r.get('delta'), 'reencoded_hex': r['reenc'].hex() if r['reenc'] else None}
+              'delta': r.get('delta'), 'reencoded_hex': r['reenc'].hex() if r['reenc'] else None,
+              'class': 'bstr-slot-holds-uint (bytes(int) -> zero octets)'}
     chk.case(replay, sample=True)
     chk.count('D20:directed witness')
     if (g.get('seen') == 1) != r['accepted'] or sorted(set(g.get('fail', [None]))) != r['crc_fail']:
@@ -341,9 +343,29 @@ def check_d20(chk, rx):
         chk.corr_break('D20: model and agent disagree on the witness', replay)
     if r['accepted'] and not verdict:
         chk.violation('C08:reencode-normalises-corruption',
-                      'one-bit corruption of a CRC-32C protected primary block (report-to dtn://src/ -> dtn://src?) '
-                      'is accepted: check_crc() runs over the re-encoding (urlsplit drops the query and the field '
-                      'code re-inserts "/"), not over the received octets', replay)
+                      'one-bit corruption of a CRC-16 protected block (empty BTSD 40 -> 00, unsigned 0) is accepted: '
+                      'BstrField.m2i makes bytes(0) of it and check_crc() runs over the re-encoding, not over the '
+                      'received octets', replay)
+    else:
+        chk.corr_break('D20: the Lean counterexample witness is no longer accepted by the agent '
+                       '(C08_burst_counterexample out of date)', replay)
+    # former witness (D19 fixed): '/' -> '?' at the end of the report-to EID must now be dropped
+    blocks = G.split_blocks(data)
+    s, e = blocks[0]['items'][5]
+    old = flip_bits(data, [8 * (e - 1) + 4])
+    assert old[e - 1] == 0x3f
+    r2 = rx.feed(old)
+    g2 = chk.driver([{'op': 'bp.gate', 'hex': old.hex(), 'own': own}])[0]
+    rp2 = {'stream': 'D20-old', 'original_hex': data.hex(), 'corrupted_hex': old.hex(),
+           'real_check_all_crc': r2['crc_fail'], 'accepted': r2['accepted']}
+    chk.case(rp2)
+    chk.count('D20:former witness (EID final slash)')
+    if (g2.get('seen') == 1) != r2['accepted'] or sorted(set(g2.get('fail', [None]))) != r2['crc_fail']:
+        rp2['lean'] = g2
+        chk.corr_break('D20-old: model and agent disagree on the former witness', rp2)
+    if r2['accepted']:
+        rp2['class'] = 'eid-final-slash'
+        chk.violation('C08:reencode-normalises-corruption', 'former D20 witness (EID final "/" -> "?") accepted again', rp2)
 
 
 def run(chk):
